@@ -22,9 +22,60 @@ import (
 // crypto/rand.Reader itself, and NewMnemonic output is a function of that
 // source's bytes only.
 
+// suspiciousRun reports a run of >= 6 identical 0x00/0xff bytes anywhere, or >= 5 trailing zero
+// bytes, in an entropy drawn from the default source: what a partially filled or padded buffer
+// looks like. For genuine CSPRNG output the probability is below 1e-11 per value.
+func suspiciousRun(e []byte) string {
+	run := 1
+	for i := 1; i < len(e); i++ {
+		if e[i] == e[i-1] && (e[i] == 0 || e[i] == 0xff) {
+			run++
+			if run >= 6 {
+				return fmt.Sprintf("%d consecutive 0x%02x bytes ending at offset %d", run, e[i], i)
+			}
+		} else {
+			run = 1
+		}
+	}
+	tz := 0
+	for i := len(e) - 1; i >= 0 && e[i] == 0; i-- {
+		tz++
+	}
+	if tz >= 5 {
+		return fmt.Sprintf("%d trailing zero bytes", tz)
+	}
+	return ""
+}
+
+// defaultOutputCheck decodes a default-source mnemonic and applies the fixed-data detectors.
+func defaultOutputCheck(o *op, got obs) error {
+	rl, ok := refLangOf(bip39.Language(o.Lang))
+	if !ok {
+		harnessError("c07: default-output op must use a supported language")
+	}
+	if err := modelCheck(o, got); err != nil {
+		return failf("C07 "+sigOf(err), "%v", err)
+	}
+	e, sumOK, derr := ref.Decode(rl, string(got.Str))
+	if derr != nil || !sumOK {
+		return failf("C07 default-output-invalid", "%s returned %q, which does not decode (%v, checksum ok=%v)", opString(o), string(got.Str), derr, sumOK)
+	}
+	if why := suspiciousRun(e); why != "" {
+		return failf("C07 fixed-data-in-default-output", "%s with the unswapped default source returned %q, whose entropy %x has %s: bytes that did not come from the CSPRNG", opString(o), string(got.Str), e, why)
+	}
+	key := "m:" + string(got.Str)
+	if prev, dup := seenDefault[key]; dup {
+		return failf("C07 repeated-output", "default-source %s returned %q, which %s returned before", opString(o), string(got.Str), prev)
+	}
+	seenDefault[key] = opString(o)
+	return nil
+}
+
 type sourceCase struct {
 	History []op `json:"history"` // non-swapping calls made before the probe
-	TeeNew  []op `json:"tee_new"` // NewMnemonic calls made through a recording tee around the default source
+	// Unswapped: default-source NewMnemonic calls made after the history with nothing installed
+	Unswapped []op `json:"unswapped,omitempty"`
+	TeeNew    []op `json:"tee_new"` // NewMnemonic calls made through a recording tee around the default source
 }
 
 // seenDefault remembers default-source outputs across cases of this process:
@@ -32,7 +83,7 @@ type sourceCase struct {
 var seenDefault = map[string]string{}
 
 var c07Check = register("C07", "c07.source", func(c *sourceCase) error {
-	p := &plan{Phases: []phase{{Goroutines: [][]op{c.History}}}, Probe: true, TeeNew: c.TeeNew}
+	p := &plan{Phases: []phase{{Goroutines: [][]op{c.History}}}, Probe: true, TeeNew: c.TeeNew, Unswapped: c.Unswapped}
 	r := spawnChild(p, false)
 	if r.Report == nil {
 		if r.Crashed {
@@ -44,8 +95,13 @@ var c07Check = register("C07", "c07.source", func(c *sourceCase) error {
 	if !rep.PrevIsDefault {
 		return failf("C07 identity", "after %d non-swapping calls in a fresh process, the randomness source consulted by NewMnemonic is a %s, not crypto/rand.Reader itself", len(c.History), rep.PrevType)
 	}
-	if len(rep.Tee) != len(c.TeeNew) {
+	if len(rep.Tee) != len(c.TeeNew) || len(rep.Unswapped) != len(c.Unswapped) {
 		harnessError("c07: malformed child report")
+	}
+	for i := range c.Unswapped {
+		if err := defaultOutputCheck(&c.Unswapped[i], rep.Unswapped[i]); err != nil {
+			return err
+		}
 	}
 	for i := range c.TeeNew {
 		o := &c.TeeNew[i]
@@ -91,7 +147,7 @@ var c07Check = register("C07", "c07.source", func(c *sourceCase) error {
 	return nil
 })
 
-const c07Rule = "C07: (a) fresh child processes each run a rapid-generated history of non-swapping calls (all entry points, all languages, failing calls) and are then probed through the verif hook: the value returned by the first swap must be == crypto/rand.Reader (interface identity); NewMnemonic calls made through a recording tee around that source must equal the reference encoding of the first 4n/3 bytes the tee delivered; no output may repeat across processes or calls. (b) in-process: every (n, language) through the tee, plus bit statistics of >= 4096 decoded default outputs (each entropy bit within 8 sigma of 1/2). Non-trivial: a child whose history contains >= 1 call before the probe; distinct by (history, tee calls)"
+const c07Rule = "C07: (a) fresh child processes each run a rapid-generated history of non-swapping calls (all entry points, all languages, failing calls) and are then probed through the verif hook: the value returned by the first swap must be == crypto/rand.Reader (interface identity); NewMnemonic calls made through a recording tee around that source must equal the reference encoding of the first 4n/3 bytes the tee delivered; no output may repeat across processes or calls. Before the probe each child also makes 0..40 default-source calls of mixed sizes with nothing installed. (b) in-process: >= 4500 genuinely unswapped outputs of mixed sizes back to back, then every (n, language) through the tee; unswapped outputs are decoded and must show no run of >= 6 equal 0x00/0xff bytes, no >= 5 trailing zero bytes, no repetition, and every entropy bit within 8 sigma of 1/2. Non-trivial: a child whose history contains >= 1 call before the probe; distinct by (history, tee calls)"
 
 func TestC07_Children(t *testing.T) {
 	cov.Rule(c07Rule)
@@ -113,7 +169,14 @@ func TestC07_Children(t *testing.T) {
 		for i := range tee {
 			tee[i] = op{Kind: "new", N: int64(gen.Count().Draw(rt, "n")), Lang: int64(implLang[gen.Lang().Draw(rt, "lang")])}
 		}
-		c := &sourceCase{History: hist, TeeNew: tee}
+		// a run of default-source calls of mixed sizes (a pooled or chunked source shows at the seams)
+		nu := rapid.IntRange(0, 40).Draw(rt, "unswapped-calls")
+		uns := make([]op, nu)
+		for i := range uns {
+			uns[i] = op{Kind: "new", N: int64(gen.Count().Draw(rt, "un")), Lang: int64(implLang[gen.Lang().Draw(rt, "ulang")])}
+		}
+		c := &sourceCase{History: hist, TeeNew: tee, Unswapped: uns}
+		cov.ClassN("unswapped-default-outputs", nu)
 		cov.Eval(1)
 		cov.ClassN("history-calls", len(hist))
 		for i := range hist {
@@ -151,6 +214,44 @@ func (t *recTee) Read(p []byte) (int, error) {
 }
 
 var c07InprocCheck = register("C07", "c07.inproc", func(c *inprocCase) error {
+	// phase 0: nothing installed - genuinely unswapped output, mixed sizes back to back
+	{
+		var ones [5][256]int
+		var count [5]int
+		for round := 0; round < c.Rounds; round++ {
+			for li, l := range allLangs() {
+				for ni := range ref.Counts {
+					n := ref.Counts[(ni+li+round)%5]
+					o := &op{Kind: "new", N: int64(n), Lang: int64(implLang[l])}
+					got, err, p := implNew(n, implLang[l])
+					r := obs{Str: text(got)}
+					r.Err, r.ErrMsg = classifyErr2(err)
+					if p != nil {
+						r.Panic = p.Error()
+					}
+					if cerr := defaultOutputCheck(o, r); cerr != nil {
+						return cerr
+					}
+					e, _, _ := ref.Decode(l, got)
+					si := (len(e) - 16) / 4
+					count[si]++
+					for b := 0; b < len(e)*8; b++ {
+						if e[b/8]>>(7-uint(b%8))&1 == 1 {
+							ones[si][b]++
+						}
+					}
+				}
+			}
+		}
+		for si, n := range count {
+			limit := 8 * math.Sqrt(float64(n)) / 2
+			for b := 0; n >= 64 && b < (16+4*si)*8; b++ {
+				if d := math.Abs(float64(ones[si][b]) - float64(n)/2); d > limit {
+					return failf("C07 biased-bit", "entropy bit %d of unswapped %d-byte default outputs is 1 in %d of %d samples (more than 8 sigma from 1/2)", b, 16+4*si, ones[si][b], n)
+				}
+			}
+		}
+	}
 	tee := &recTee{}
 	prev := bip39.VerifSwapRandSource(tee)
 	defer bip39.VerifSwapRandSource(prev)
@@ -209,8 +310,9 @@ func TestC07_InProcess(t *testing.T) {
 	cov.Rule(c07Rule)
 	rounds := pick(90, 1400) // x 50 (n, language) pairs: 4500 | 70000 outputs
 	c := &inprocCase{Rounds: rounds}
-	cov.Eval(rounds * 50)
+	cov.Eval(rounds * 100)
 	cov.ClassN("default-outputs-through-tee", rounds*50)
+	cov.ClassN("unswapped-default-outputs", rounds*50)
 	cov.Sample("c07.inproc", c)
 	judge(t, "c07.inproc", c07InprocCheck, c)
 	_ = strings.Join
